@@ -17,7 +17,7 @@ def scenario(rng, again=None):
     msgs = []
     for i in range(n):
         msgs.append(dict(at=round(rng.uniform(0.2, 12.0), 3), log='L%d' % (i + 1),
-                         seg=rng.random() < 0.3, react=rng.choice(('ok', 'ok', 'ok', 'reject', 'throttle', 'nack', 'silent', 'late', 'slow'))))
+                         seg=rng.random() < 0.3, react=rng.choice(('ok', 'ok', 'ok', 'reject', 'throttle', 'nack', 'silent', 'late', 'slow', 'reset'))))
     sc = dict(msgs=msgs, hook=rng.choice(('none', 'none', 'sending', 'received', 'error', 'all')),
               stalls=rng.choice((0, 0, 1, 2)), drops=rng.choice((0, 0, 0, 1)), seed=rng.randrange(10 ** 9),
               put_hook=rng.random() < 0.3, order=rng.choice((1, 7)))
@@ -102,11 +102,15 @@ def run(sc):
 
         def submit_status(seq):
             r = seq_react.get(seq, 'ok')
-            return {'ok': 0, 'reject': 8, 'throttle': 0x58, 'silent': None, 'late': 0, 'slow': 0, 'nack': 'nack'}[r]
+            return {'ok': 0, 'reject': 8, 'throttle': 0x58, 'silent': None, 'late': 0, 'slow': 0, 'nack': 'nack', 'reset': None}[r]
 
         def on_submit(conn, seq):
             r = seq_react.get(seq, 'ok')
             if r == 'silent':
+                return
+            if r == 'reset':
+                # the link breaks while this PDU is on its way: the write went through, drain() raises
+                conn.reset()
                 return
             delay = {'late': TTL + 1.5, 'slow': 1.0}.get(r, 0.0) + (seq % 1000) * 1e-6
             if r == 'nack':
@@ -199,15 +203,21 @@ def predicate(sc, ev):
     outcomes = {}
     seq_log = dict(sc.get('_seq_log', {}))
     put_done = set()
+    put_at = {}
     for e in ev:
         if e[1] == 'put-done':
             put_done.add(e[3])
+            put_at.setdefault(e[3], e[0])
         if e[1] == 'received' and e[2] in ('SubmitSmResp', 'GenericNack'):
             if not e[4]:
                 seq = struct.unpack('!I', e[3][12:16])[0]
                 log = seq_log.get(seq)
                 if log is not None and outcomes.get(log):
                     continue        # late: the request was already reported (time-out); handed over unattributed, as C13 says
+                if seq in put_at and e[0] - put_at[seq] > TTL:
+                    # late answer to a segment: the request has outlived its time-to-live (the message itself is reported
+                    # once its other segments are settled)
+                    continue
                 text = 'a %s (status %s, seq %d, message %s) reached the received hook without log_id before its request got any outcome' % (
                     e[2], e[6], seq, log)
                 # the response found nothing to be correlated with because correlator.put had not finished storing the request
